@@ -486,7 +486,8 @@ func (m *FloatPreAgg) unmarshal(src []byte) ([]byte, error) {
 }
 
 func (m *FloatPreAgg) VLCEncode(dst []byte) []byte {
-	if m.maxV == 0 && m.minV == 0 {
+	// the short form stands for min = max = sum = +0; compare bit patterns (-0, and a NaN sum next to zeros)
+	if math.Float64bits(m.maxV) == 0 && math.Float64bits(m.minV) == 0 && math.Float64bits(m.sumV) == 0 {
 		dst = append(dst, 0)
 	} else {
 		dst = append(dst, 1)
@@ -749,8 +750,13 @@ func (m *BooleanPreAgg) sum() interface{} {
 func (m *BooleanPreAgg) addValues(col *record.ColVal, times []int64) {
 	values := col.Int8Values()
 	valLen := len(values)
-	for i := 0; i < valLen; i++ {
-		v := values[i]
+	for i, j := 0, 0; i < col.Len; i++ {
+		if col.NilCount > 0 && col.IsNil(i) {
+			continue
+		}
+
+		v := values[j]
+		j++
 		if m.minV > v {
 			m.minV = v
 			m.minTime = times[i]
